@@ -10,11 +10,23 @@
    all loop iteration counts and all fault schedules — no size bound anywhere.
    A crash point is a PREFIX of the trace.
 
-   Part B: the same statements about `reference b14 b15`, a frozen snapshot of
-   the pinned tree (b14/b15 = proposed fixes F14/F15 applied or not): the full
-   statements are REFUTED for the unfixed snapshot, hold for the fixed one,
-   and the strongest true statements (`..._partial`) exclude exactly the
-   selectors sel_F14 / sel_F15.
+   Part B: the same statements about `reference b14 b15`, a frozen hand-written
+   snapshot of the trainer (b14/b15 = fixes F14 = 9c1a762 / F15 = 0a40184 applied
+   or not).  `reference true true` is the CURRENT tree (/repo HEAD contains both
+   fixes) and is tied to the generated term on every run (`same_on_cells`).
+   `reference false _` / `reference _ false` are the PINNED tree before fix
+   9c1a762 / 0a40184: historic variants that no code implements any more.  The
+   full statements are REFUTED for them, the strongest true statements
+   (`..._partial`) exclude exactly the selectors sel_F14 / sel_F15; these
+   theorems document the two repaired defects (and what a regression would
+   look like) and are tied to no code today (review finding 6).
+
+   Fault model (review finding 8): external exceptions strike only INSIDE try
+   bodies; the `finally` block of train() itself (`wandb.run.id`,
+   `wandb.finish()`, the final `OmegaConf.save`, the removals) is fault-free in
+   `exec`.  "On every path" below therefore excludes an exception raised
+   inside `finally` before the final save / the removals; elsewhere an
+   exception ends the process = a prefix of the trace.
 
    The term for the CURRENT working tree is generated on every run
    (Gen/C19_TrainerEffects.v); the per-run obligations (checker values
@@ -81,26 +93,55 @@ Proof. exact initial_written_lemma. Qed.
 Print Assumptions initial_config_written.
 
 (* (c2) on every completed rank-0 run the last write of training_config.yaml comes after
-   the last mutation of the configuration (so it equals the configuration actually used) *)
+   the last mutation of the configuration (so it equals the configuration actually used).
+   Round 4 (review finding 4): ... and after the last RELOAD — a term that re-loads the
+   configuration after the final save is rejected too (`ex_final_and_chunk_monitors_reject`) *)
 Theorem final_config_after_last_mutation : forall p, final_config_contract p = true ->
   forall E, fl E RankZero = true -> (forall i, fault E i = NoFault) -> result E p = Ok ->
   exists p1 a p2, trace E p = p1 ++ a :: p2 /\ is_write_to FTraining a = true /\
-                  Forall (fun b => is_set b = false) p2.
+                  Forall (fun b => is_set b = false /\ is_reload b = false) p2.
 Proof. exact final_after_mutation_lemma. Qed.
 Print Assumptions final_config_after_last_mutation.
 
-(* (c3) checkpoints: none when save_ckpt is off (any faults); one on every completed run
-   when it is on *)
+(* (c3) checkpoints.  Round 4 (review finding 1): the file is written by Lightning's
+   `ModelCheckpoint(save_top_k, save_last)`, constructed when save_ckpt is on; "checkpointing is
+   on" = `ckpt_req` = save_ckpt /\ (save_top_k <> 0 \/ save_last).  With save_ckpt on,
+   save_top_k = 0 and save_last None / False the user asks for zero checkpoints (ModelCkptConfig:
+   "If save_top_k == 0, no models are saved") and none is written: the round-2 theorem
+   `ckpt_written_when_requested` (hypothesis `fl E SaveCkpt = true` alone) misrepresented the
+   code and is WITHDRAWN; `save_ckpt_alone_refuted` shows it false of the current tree.
+   EXACT condition: none unless ckpt_req (any faults); one on every completed run when ckpt_req. *)
 Theorem no_ckpt_unless_requested : forall p, ckpt_contract p = true ->
-  forall E, fl E SaveCkpt = false -> Forall (fun a => is_write_to FCkpt a = false) (trace E p).
+  forall E, ckpt_req (fl E) = false -> Forall (fun a => is_write_to FCkpt a = false) (trace E p).
 Proof. exact no_ckpt_unless_requested_lemma. Qed.
 Print Assumptions no_ckpt_unless_requested.
 
-Theorem ckpt_written_when_requested : forall p, ckpt_contract p = true ->
-  forall E, fl E SaveCkpt = true -> (forall i, fault E i = NoFault) -> result E p = Ok ->
+(* its two special cases: save_ckpt off (the round-2 statement), and zero checkpoints asked for *)
+Theorem no_ckpt_when_save_ckpt_off : forall p, ckpt_contract p = true ->
+  forall E, fl E SaveCkpt = false -> Forall (fun a => is_write_to FCkpt a = false) (trace E p).
+Proof. exact no_ckpt_when_save_ckpt_off_lemma. Qed.
+Print Assumptions no_ckpt_when_save_ckpt_off.
+
+Theorem no_ckpt_when_zero_requested : forall p, ckpt_contract p = true ->
+  forall E, fl E SaveTopKZero = true -> fl E SaveLast = false ->
+  Forall (fun a => is_write_to FCkpt a = false) (trace E p).
+Proof. exact no_ckpt_when_zero_requested_lemma. Qed.
+Print Assumptions no_ckpt_when_zero_requested.
+
+Theorem ckpt_written_when_ckpt_req : forall p, ckpt_contract p = true ->
+  forall E, ckpt_req (fl E) = true -> (forall i, fault E i = NoFault) -> result E p = Ok ->
   exists a, In a (trace E p) /\ is_write_to FCkpt a = true.
 Proof. exact ckpt_written_when_requested_lemma. Qed.
-Print Assumptions ckpt_written_when_requested.
+Print Assumptions ckpt_written_when_ckpt_req.
+
+(* the withdrawn reading is false of the current tree: a valid, completed run with save_ckpt on
+   (save_top_k = 0, save_last unset) writes no checkpoint *)
+Theorem save_ckpt_alone_refuted :
+  exists E, valid_cell (fl E) = true /\ fl E SaveCkpt = true /\ (forall i, fault E i = NoFault) /\
+            result E (reference true true) = Ok /\
+            Forall (fun a => is_write_to FCkpt a = false) (trace E (reference true true)).
+Proof. exact ref_save_ckpt_alone_refuted. Qed.
+Print Assumptions save_ckpt_alone_refuted.
 
 (* (c4) chunk directories: never removed unless requested (np_chunks framework and the
    delete flag); when requested, removed on EVERY path of a valid cell that is not an
@@ -117,7 +158,47 @@ Theorem no_chunk_deletion_unless_requested_any : forall p, chunk_guard_contract 
 Proof. exact no_rm_unless_requested_any_lemma. Qed.
 Print Assumptions no_chunk_deletion_unless_requested_any.
 
-(* round 2: t ranges over the np chunk directories AND the litdata ones; "requested" (`rm_req`)
+(* round 4 (review finding 2): creation of chunks is an atom (`AMkChunks t`: chunk files of kind t are
+   created, or — re-use — read, by this step).  The removal comes AFTER the last such step: "no chunk
+   files at exit" is a statement about create-before-remove order, not only "some removal occurs".
+   A term that removes first and creates afterwards is rejected (`ex_final_and_chunk_monitors_reject`).
+   Idealisation: `ARm` = `shutil.rmtree(..., ignore_errors=True)` succeeded (a failing removal is
+   silent in the code).  "Every path": see the fault model in the header — not an exception raised
+   inside `finally` before the removals (e.g. by `wandb.finish()`). *)
+Theorem chunk_deletion_after_last_creation : forall t p, rm_all_paths no_excuse t p = true ->
+  forall E, valid_cell (fl E) = true -> rm_req (fl E) t = true ->
+  result E p <> ExnInvalid ->
+  exists p1 a p2, trace E p = p1 ++ a :: p2 /\ is_rm t a = true /\ Forall (fun b => is_mk t b = false) p2.
+Proof. exact chunk_deletion_after_last_creation_lemma. Qed.
+Print Assumptions chunk_deletion_after_last_creation.
+
+Theorem chunk_deletion_after_last_creation_unless_F15 : forall t p, rm_all_paths sel_F15 t p = true ->
+  forall E, valid_cell (fl E) = true -> rm_req (fl E) t = true -> sel_F15 (fl E) = false ->
+  result E p <> ExnInvalid ->
+  exists p1 a p2, trace E p = p1 ++ a :: p2 /\ is_rm t a = true /\ Forall (fun b => is_mk t b = false) p2.
+Proof. exact chunk_deletion_after_last_creation_unless_F15_lemma. Qed.
+Print Assumptions chunk_deletion_after_last_creation_unless_F15.
+
+(* chunk files of kind t are created only by a run that uses that kind (np framework / memory fallback
+   for the np directories, litdata for the litdata ones) — any faults *)
+Theorem no_chunk_creation_unless_in_use : forall p, mk_guard_contract p = true ->
+  forall E t, chunks_in_use (fl E) t = false -> Forall (fun a => is_mk t a = false) (trace E p).
+Proof. exact no_mk_unless_in_use_lemma. Qed.
+Print Assumptions no_chunk_creation_unless_in_use.
+
+(* THE CHUNK CLAUSE ("no chunk files when their deletion is requested"): on a valid cell with the delete
+   flag, every run that is not an explicit rejection — any fault schedule — ends with no chunk files of
+   any kind t, whatever was there before the run (s0; re-used chunks: s0 = true), provided the
+   directories of a kind the run does not use were empty to begin with *)
+Theorem no_chunks_at_exit_when_deletion_requested : forall p, chunk_contract p = true ->
+  forall E, valid_cell (fl E) = true -> fl E DeleteChunks = true -> result E p <> ExnInvalid ->
+  forall t s0, (chunks_in_use (fl E) t = false -> s0 = false) ->
+  chunks_present s0 t (trace E p) = false.
+Proof. exact no_chunks_at_exit_lemma. Qed.
+Print Assumptions no_chunks_at_exit_when_deletion_requested.
+
+(* corollaries of the two theorems above, in their round-2 form ("some removal of t occurs").
+   round 2: t ranges over the np chunk directories AND the litdata ones; "requested" (`rm_req`)
    covers np chunks made by the memory fallback of an in-memory run; valid cells include litdata,
    re-used chunks, every wandb mode *)
 Theorem chunk_deletion_on_all_paths : forall t p, rm_all_paths no_excuse t p = true ->
@@ -135,7 +216,13 @@ Proof. exact chunk_deletion_on_all_paths_unless_F15_lemma. Qed.
 Print Assumptions chunk_deletion_on_all_paths_unless_F15.
 
 (* (d) completion: on a valid cell, without external faults, the run ends normally or by an
-   explicit `raise` of the trainer (rejection) — never by another exception *)
+   explicit `raise` of the trainer (rejection) — never by another exception.
+   WEAKER than "completes without error" (review finding 3): validity of the data-dependent part of
+   a configuration is opaque, so an explicit rejection (ExnInvalid) is accepted here; a term that
+   always rejects passes this checker (`ex_reject_all`).  The gap is closed per term by
+   `valid_cells_complete` below (every valid cell ends Ok under the data valuation that the harness
+   ties to real runs), recomputed on the generated term on every run (`ob_valid_cells_complete`,
+   `gen_valid_cells_end_ok`), and by the harness's whitelist of the rejection sites of the source. *)
 Theorem run_completes_sound : forall p, completes p = true ->
   forall E, valid_cell (fl E) = true -> (forall i, fault E i = NoFault) ->
   result E p = Ok \/ result E p = ExnInvalid.
@@ -160,6 +247,21 @@ Theorem chunks_left_cell_is_a_failure : forall p, is_some (first_rm_missing_cell
 Proof. exact rm_missing_cell_exists. Qed.
 Print Assumptions chunks_left_cell_is_a_failure.
 
+(* round 4 (review finding 3): for a term that passes `valid_cells_complete`, EVERY cell of the grid that is
+   valid ends Ok, in a fault-free environment whose flags are a valid cell — the premises `result E p = Ok`,
+   `valid_cell (fl E) = true`, `forall i, fault E i = NoFault` of the theorems above are jointly satisfiable
+   on every valid cell (`all_cells_enumerates_every_cell`: the enumeration misses no cell) *)
+Theorem valid_cells_end_ok : forall p, valid_cells_complete p = true ->
+  forall c, In c all_cells -> valid_cell (cell_flags c) = true ->
+  result (cenv p c None) p = Ok /\ valid_cell (fl (cenv p c None)) = true /\
+  (forall i, fault (cenv p c None) i = NoFault).
+Proof. exact valid_cells_complete_lemma. Qed.
+Print Assumptions valid_cells_end_ok.
+
+Theorem all_cells_enumerates_every_cell : forall c, In c all_cells.
+Proof. exact all_cells_complete. Qed.
+Print Assumptions all_cells_enumerates_every_cell.
+
 (* ---- round 2 ---- *)
 
 (* the grid of valid cells was widened, not changed: every round-1 cell (two torch_dataset
@@ -177,7 +279,7 @@ Theorem final_config_records_run_id : forall p,
   result E p = Ok ->
   exists p1 a p2 b p3, trace E p = p1 ++ a :: p2 ++ b :: p3 /\
     is_set_path run_id_path a = true /\ is_write_to FTraining b = true /\
-    Forall (fun c => is_set c = false) p3.
+    Forall (fun c => is_set c = false /\ is_reload c = false) p3.
 Proof. exact final_config_records_run_id_lemma. Qed.
 Print Assumptions final_config_records_run_id.
 
@@ -187,46 +289,50 @@ Print Assumptions final_config_records_run_id.
 Theorem final_config_under_faults : forall p, final_config_contract_faults p = true ->
   forall E, fl E RankZero = true -> result E p <> ExnInvalid ->
   exists p1 a p2, trace E p = p1 ++ a :: p2 /\ is_write_to FTraining a = true /\
-                  Forall (fun b => is_set b = false) p2.
+                  Forall (fun b => is_set b = false /\ is_reload b = false) p2.
 Proof. exact final_config_under_faults_lemma. Qed.
 Print Assumptions final_config_under_faults.
 
-(* =============== Part B: the frozen snapshot of the pinned tree =============== *)
+(* =============== Part B: the frozen snapshot `reference b14 b15` ===============
+   b14 = b15 = true: the current tree.  b14 = false / b15 = false: the pinned tree BEFORE fix 9c1a762 (F14) /
+   0a40184 (F15) — historic; `..._refuted` / `..._partial` / `key_leak_table_finite` below are about those
+   variants, which no code implements any more (kept: they document the defects and keep the check able to
+   report a regression through the same selectors). *)
 
-(* F14 — the full statement is false of the pinned tree: some run writes the key *)
+(* F14 (fixed in 9c1a762) — the full statement is false of the pinned tree before the fix: some run writes the key *)
 Theorem key_persisted_refuted : forall b15,
   exists E pre, prefix pre (trace E (reference false b15)) /\
                 Exists (fun w => w_key w = true) (writes_of true pre).
 Proof. exact ref_key_persisted_refuted. Qed.
 Print Assumptions key_persisted_refuted.
 
-(* the complete leak table of the pinned tree (finite domain: the 384 cells of the grid
+(* the complete leak table of the pinned tree before fix 9c1a762 (finite domain: the 1536 cells of the grid
    {tracking, checkpointing, framework (3), delete flag, structured, wandb offline, re-used
-   chunks, memory fallback}; bound in the statement):
+   chunks, memory fallback, save_top_k = 0, save_last}; bound in the statement):
    initial_config.yaml and the constructor's training_config.yaml always, the chunk
    config.yaml when a chunk framework creates chunks, and — tracking off — both
-   training_config.yaml writes of train() and the checkpoints *)
+   training_config.yaml writes of train() and the checkpoints (when ckpt_req) *)
 Theorem key_leak_table_finite :
-  length all_cells = 384 /\
+  length all_cells = 1536 /\
   map (leaks_of_cell (reference false true)) all_cells = map expected_leaks all_cells.
 Proof. exact ref_leak_table. Qed.
 Print Assumptions key_leak_table_finite.
 
-(* strongest true statement for the pinned tree: every leaking write falls under sel_F14 *)
+(* strongest true statement for the pinned tree before fix 9c1a762: every leaking write falls under sel_F14 *)
 Theorem key_persisted_partial : forall b15 E pre, prefix pre (trace E (reference false b15)) ->
   Forall (fun w => w_key w = true -> sel_F14 (fl E) (w_file w) (w_ctor w) = true)
          (writes_of true pre).
 Proof. exact ref_key_persisted_partial. Qed.
 Print Assumptions key_persisted_partial.
 
-(* with the key blanked right after loading (proposed fix F14) the full statement holds *)
+(* with the key blanked right after loading (fix F14 = 9c1a762, in /repo HEAD) the full statement holds *)
 Theorem key_never_persisted_after_fix : forall b15 E pre, prefix pre (trace E (reference true b15)) ->
   Forall (fun w => w_key w = false) (writes_of true pre).
 Proof. exact ref_key_never_persisted_after_fix. Qed.
 Print Assumptions key_never_persisted_after_fix.
 
-(* F15 — completion is false of the pinned tree: a valid cell (structured, tracking on)
-   ends with an exception that is not an explicit rejection *)
+(* F15 (fixed in 0a40184) — completion is false of the pinned tree before the fix: a valid cell (structured,
+   tracking on) ends with an exception that is not an explicit rejection *)
 Theorem structured_wandb_run_completes_refuted : forall b14,
   exists E, valid_cell (fl E) = true /\ (forall i, fault E i = NoFault) /\
             result E (reference b14 false) <> Ok /\ result E (reference b14 false) <> ExnInvalid.
@@ -262,7 +368,8 @@ Theorem chunk_contract_after_fix : forall b14, chunk_contract (reference b14 tru
 Proof. exact reference_chunks_fixed15. Qed.
 Print Assumptions chunk_contract_after_fix.
 
-(* the remaining artifact clauses hold of the pinned tree, fixed or not *)
+(* the remaining artifact clauses hold of every variant of the snapshot (ckpt_contract: with the exact
+   condition ckpt_req, round 4) *)
 Theorem artifact_contract_reference : forall b14 b15,
   initial_config_contract (reference b14 b15) = true /\
   final_config_contract (reference b14 b15) = true /\
@@ -277,16 +384,44 @@ Theorem round2_contracts_reference : forall b14,
 Proof. exact reference_round2_contracts. Qed.
 Print Assumptions round2_contracts_reference.
 
+(* round 4: the current tree passes the new / strengthened checkers; the withdrawn checkpoint reading fails *)
+Theorem round4_contracts_reference :
+  (valid_cells_complete (reference true true), ckpt_contract (reference true true),
+   ckpt_contract_save_ckpt_alone (reference true true), chunk_contract (reference true true),
+   mk_guard_contract (reference true true)) = (true, true, false, true, true).
+Proof. exact reference_round4_contracts. Qed.
+Print Assumptions round4_contracts_reference.
+
 (* ============================ non-vacuity ================================ *)
+
+(* the strengthened monitors reject what the review's scratch terms did: a reload after the final save
+   (both final-config checkers), a removal placed before the creation; removal after creation passes *)
+Example ex_final_and_chunk_monitors_reject :
+  (final_config_contract ex_reload_after, final_config_contract_faults ex_reload_after,
+   rm_all_paths no_excuse RmTrain ex_rm_first, rm_all_paths no_excuse RmTrain ex_rm_last)
+  = (false, false, false, true).
+Proof. exact strengthened_monitors_reject. Qed.
+
+(* `completes` alone accepts a term that rejects everything; `valid_cells_complete` does not *)
+Example ex_reject_all : (completes (Do ARaise), valid_cells_complete (Do ARaise)) = (true, false).
+Proof. exact reject_all_checkers. Qed.
+
+(* ckpt_req is inhabited on both sides: zero checkpoints asked for vs. last.ckpt only *)
+Example ex_ckpt_req :
+  (ckpt_req (cell_flags zero_ckpt_cell), valid_cell (cell_flags zero_ckpt_cell),
+   ckpt_req (upd (cell_flags zero_ckpt_cell) SaveLast true)) = (false, true, true).
+Proof. vm_compute. reflexivity. Qed.
 
 (* the widened part of the grid is inhabited: a litdata cell with re-used chunks and the delete
    flag is valid, requests the deletion of the litdata directories and not of the np ones; an
    in-memory cell whose cache does not fit requests the np ones *)
 Example ex_widened_cells :
   let lit := cell_flags {| c_wandb := true; c_ckpt := true; c_fw := KLit; c_delete := true;
-                           c_structured := false; c_offline := false; c_existing := true; c_memfb := false |} in
+                           c_structured := false; c_offline := false; c_existing := true; c_memfb := false;
+                           c_topk0 := false; c_savelast := false |} in
   let fb := cell_flags {| c_wandb := false; c_ckpt := false; c_fw := KMem; c_delete := true;
-                          c_structured := true; c_offline := true; c_existing := false; c_memfb := true |} in
+                          c_structured := true; c_offline := true; c_existing := false; c_memfb := true;
+                          c_topk0 := false; c_savelast := false |} in
   (valid_cell lit, valid_cell_r1 lit, rm_req lit RmLitTrain, rm_req lit RmTrain,
    valid_cell fb, rm_req fb RmTrain, rm_req fb RmLitVal)
   = (true, false, true, false, true, true, false).
